@@ -38,6 +38,8 @@ CLAIMS = {
             "CUR abstract interpretation + TBL/ALIAS/PAIRF rules over clang AST/CFG", "3 C16"),
     "C18": ("the bounds-safety clauses: value-set analysis (byte domain exact, signed char, casts, masks, dominating guards, return-set summaries) of every non-constant index into a constant-size table; (pointer,length) reads covered by the length guards with lock-step advance and bounded fall-through consumption in the UTF-8 decoder/validator; encoder range tests agree with the decoder's length table on representatives of every range; base64 output index bounded by the input index; that encoder and decoder are inverse on all code points, integer round trips and the hex/base64 values are NOT decided",
             "VSA (value sets/intervals) + PAIRF/CNT/FIN rules over clang AST/CFG", "3 C18"),
+    "C19": ("failure discipline and tree confinement on File.cpp/Directory.cpp: created files are unlinked on every failing path (1 known finding for File::copy), Directory::create returns true only on mkdir success / '.'-'..' / verified existence and fails when the parent cannot be made, File::open keeps no handle on failure, recursive unlink calls nothing that follows links and recurses only for DT_DIR entries with the stream closed on every exit; the path algebra (simplifyPath, recomposition, getRelativePath), byte fidelity of file I/O and the file system's behaviour are NOT decided",
+            "MPT/DOM/WHO rules over clang AST/CFG", "3 C19"),
     "C08": ("path and pairing rules over every Buffer member: terminator after every end update on owning paths, ownership<->capacity pairing, allocation X+1 with _capacity X, release/re-seat pairing, complete swap, rule of three, and linear-inequality entailment (own Fourier-Motzkin over dominating guards + class invariant) that every copy/move target and terminator store lies inside the allocation; content equality with a reference byte queue is NOT decided",
             "MPT/PAIRF path rules + linear-inequality abstract domain over clang AST/CFG", "3 C08"),
 }
